@@ -98,6 +98,11 @@ ASSUMPTIONS = [
     "dyadic inputs of bounded size make every float operation of the exact stratum exact, so float = rational",
 ]
 TECHNIQUE = "Lean 4 model + theorems; lock-step correspondence with spy strategy / ranker / optimizer; property oracle"
+LEVEL_TEXT = ("proof: span membership of every emitted solution, the non-negative objective coefficient, the refusal "
+              "automaton over every call sequence, the zero-parent fixpoint, the segment property of the gradient-ascent "
+              "step and restart re-centring are Lean theorems about the Dqd model; norms and recombination weights are "
+              "supplied parameters (admissibility checked); the model is tied to the code by lock-step comparison, exact "
+              "on dyadic inputs and within 2^-40 otherwise")
 
 TOL = Fraction(1, 2**40)
 
@@ -628,7 +633,7 @@ def run_gop(case, ctx):
                     if have_grad and asked_since > 0:
                         return Failure("oracle", f"{where}: second ask() after one tell_dqd() raised "
                                        f"{type(ex).__name__}: {str(ex)[:60]} (the first ask overwrote the stored "
-                                       f"Jacobian)", key="D25-gop-ask-twice")
+                                       f"Jacobian)", key="D26-gop-ask-twice")
                     return Failure("oracle", f"{where}: raised {type(ex).__name__}: {str(ex)[:80]}")
                 if not have_grad:
                     if res != "err runtime":
@@ -859,11 +864,11 @@ def nontrivial(case):
 def run(ctx):
     rc = lambda case: run_case(case, ctx)
     quick = ctx.quick
-    for name, nq, nt, tq, tt in [("gae-exact", 150, 6000, 7, 110), ("gae-rounded", 150, 6000, 7, 110),
-                                 ("gae-zero-parents", 80, 3000, 4, 60), ("gae-refusal", 60, 2000, 3, 40)]:
+    for name, nq, nt, tq, tt in [("gae-exact", 150, 6000, 7, 95), ("gae-rounded", 150, 6000, 7, 95),
+                                 ("gae-zero-parents", 80, 3000, 4, 50), ("gae-refusal", 60, 2000, 3, 35)]:
         ctx.explore(name, (lambda rng, name=name: gen_gae(rng, name)), rc, ctx.n(nq, nt), nontrivial=nontrivial,
                     time_budget=tq if quick else tt)
-    ctx.explore("gop", gen_gop, rc, ctx.n(150, 6000), nontrivial=nontrivial, time_budget=7 if quick else 110)
+    ctx.explore("gop", gen_gop, rc, ctx.n(150, 6000), nontrivial=nontrivial, time_budget=7 if quick else 95)
 
 
 def replay(ctx, case):
